@@ -134,7 +134,7 @@ func unitsC08(c *Ctx, f *ssa.Function) map[string]int64 {
 		}
 		for _, e := range srcs {
 			m := r.get(e)
-			if !m.isConst() || m.nilc {
+			if !m.isPlain() {
 				return nil, false
 			}
 			n, _ := constant.Int64Val(constant.ToInt(m.v))
